@@ -122,7 +122,7 @@ CONFIG = {
     "required_theorems": ["balanced_sound", "balanced_sound_all", "pile_holds_exactly", "pile_blocks_bare", "no_deadlock"],
     "static_obligations": [static_locks],
     "harnesses": [
-        {"cmd": "locks", "cases_quick": 240, "cases_thorough": 2400, "shards_quick": 8, "shards_thorough": 16,
+        {"cmd": "locks", "cases_quick": 240, "cases_thorough": 1200, "shards_quick": 8, "shards_thorough": 16,
          "race": True, "timeout": 1400},
     ],
     "trusted_base": [
